@@ -304,6 +304,30 @@ def rule_exp_drop(ctx, floor=12):
                     bad_here = [(n, text) for (n, val, text), s in zip(rets, stores) if TEN in s][:1]
             else:
                 bad_here = []
+        # contradiction between the arms of `if V is None: ... else: ...` (a test on the accumulator itself): when one arm folds the
+        # stored exponent into V, so must the other -- both describe "add the network's exponent to V, which may be absent"
+        if touched and not is_init:
+            for st in _own_nodes(f.node):
+                if not (isinstance(st, ast.If) and st.orelse and isinstance(st.test, ast.Compare) and isinstance(st.test.left, ast.Name)
+                        and len(st.test.ops) == 1 and isinstance(st.test.ops[0], (ast.Is, ast.IsNot)) and const_value(st.test.comparators[0], "x") is None):
+                    continue
+                V = st.test.left.id
+
+                def folds(arm):
+                    for a_ in arm:
+                        for x in ast.walk(a_):
+                            if isinstance(x, (ast.Assign, ast.AugAssign)):
+                                tg = x.targets if isinstance(x, ast.Assign) else [x.target]
+                                if any(isinstance(t_, ast.Name) and t_.id == V for t_ in tg) and any(
+                                        isinstance(y, ast.Attribute) and y.attr == "exponent" and isinstance(y.value, ast.Name) and y.value.id in fl.carriers | {k for k, v_ in fl.var.items() if NET in v_}
+                                        for y in ast.walk(x.value)):
+                                    return True
+                    return False
+
+                fb, fo = folds(st.body), folds(st.orelse)
+                if fb != fo:
+                    arm = "else" if fb else "if"
+                    bad_here.append((st, f"`if {src_of(st.test)}` folds `{carrier}.exponent` into `{V}` in one arm only (the {arm}-arm leaves it out)"))
         if not touched:
             continue
         evaluators += 1
@@ -911,4 +935,61 @@ def rule_view_accrual(ctx):
             else:
                 r.ok(f"{g.qualname}:{c.func.attr}", sample={"function": g.qualname, "call": src_of(c)[:60], "receiver": "the kept network"})
     r.floor(n, 5, "exponent-accruing equalize_norms_ calls")
+    return r
+
+
+def rule_conj_mangle_universe(ctx):
+    r = RuleResult(
+        "conj-mangle-universe",
+        "TensorNetwork.conj(mangle_inner=..., output_inds=...) builds the bra layer of norm / overlap networks: with an explicit "
+        "output_inds every label that is *not* an output must be renamed in the conjugated copy — also a dangling one — so that "
+        "it is summed inside each layer instead of being joined between ket and bra. The set handed to mangle_inner_(which=...) "
+        "on the explicit-output path is therefore the complement of output_inds in the set of *all* labels of the network",
+    )
+    f = ctx.prog.func("quimb.tensor.tensor_core", "TensorNetwork.conj")
+    if f is None:
+        raise AnalysisError("conj-mangle-universe: TensorNetwork.conj not found")
+    calls = [c for c in _own_nodes(f.node) if isinstance(c, ast.Call) and isinstance(c.func, ast.Attribute) and c.func.attr in ("mangle_inner_", "mangle_inner")]
+    if not calls:
+        raise AnalysisError("conj-mangle-universe: conj no longer calls mangle_inner_")
+    ALL = {"ind_map", "all_inds", "_get_all_inds", "ind_sizes"}
+    INNER = {"inner_inds", "_inner_inds", "outer_inds", "_outer_inds"}
+    n = 0
+    for c in calls:
+        w = next((kw.value for kw in c.keywords if kw.arg == "which"), None)
+        if w is None:
+            continue
+        # definitions of the expression (one level of locals)
+        exprs = [w]
+        if isinstance(w, ast.Name):
+            exprs = [a.value for a in _own_nodes(f.node) if isinstance(a, ast.Assign) and any(isinstance(t, ast.Name) and t.id == w.id for t in a.targets)]
+        for e in exprs:
+            names = {x.id for x in ast.walk(e) if isinstance(x, ast.Name)}
+            if "output_inds" not in names and not any(isinstance(x, ast.Name) and x.id == getattr(w, "id", None) for x in ast.walk(e)):
+                continue  # the definition for output_inds=None
+            if "output_inds" not in names:
+                # `which = which - ...` style: follow the self-reference to the other definitions
+                continue
+            n += 1
+            attrs = {x.attr for x in ast.walk(e) if isinstance(x, ast.Attribute)} | {dotted(x.func).split(".")[-1] for x in ast.walk(e) if isinstance(x, ast.Call) and dotted(x.func)}
+            universe_names = set()
+            # left operand of the difference, through a self-referencing local
+            left = e.left if isinstance(e, ast.BinOp) and isinstance(e.op, ast.Sub) else e
+            lattrs = {x.attr for x in ast.walk(left) if isinstance(x, ast.Attribute)}
+            if isinstance(left, ast.Name):
+                for a in _own_nodes(f.node):
+                    if isinstance(a, ast.Assign) and any(isinstance(t, ast.Name) and t.id == left.id for t in a.targets) and a.value is not e:
+                        lattrs |= {x.attr for x in ast.walk(a.value) if isinstance(x, ast.Attribute)}
+            construct = "TensorNetwork.conj"
+            if lattrs & INNER and not (lattrs & ALL):
+                r.bad(Finding("conj-mangle-universe", construct,
+                              f"with explicit output_inds the labels to rename are taken from `{sorted(lattrs & INNER)[0]}` minus the outputs: a dangling label that is "
+                              "not requested as output keeps its name in the conjugated copy and is joined between the two layers of norm()/overlap() "
+                              "instead of being summed in each",
+                              where=f"{f.module.relpath}:{e.lineno}", operand="universe"))
+            elif lattrs & ALL:
+                r.ok(construct, sample={"which": src_of(e)[:70], "universe": sorted(lattrs & ALL)[0]})
+            else:
+                r.skip(construct, f"universe of `{src_of(e)[:60]}` not recognised")
+    r.floor(n, 1, "explicit-output definitions of the mangled set in TensorNetwork.conj")
     return r
